@@ -992,7 +992,12 @@ func checkIPv6(data string) bool {
 	}
 	fragments := std.StringSplit(data, ":")
 	l = len(fragments)
-	if l < 3 || 8 < l {
+	if l < 3 || 9 < l {
+		return false
+	}
+	if l == 9 && (len(fragments[0]) != 0 || len(fragments[1]) != 0) &&
+		(len(fragments[7]) != 0 || len(fragments[8]) != 0) {
+		// nine fragments are seven groups and a "::" for one zero group at either end
 		return false
 	}
 	var hasEmpty bool
